@@ -268,7 +268,8 @@ func c09Witness(r *core.Run, p *core.Program) {
 			// witness item count > 0  (or != 0, >= 1)
 			sa := an.Atoms(c.Subject)
 			k, isC := an.ConstOf(c.Other)
-			if !an.HasAll(sa, "call:lib/btc.VLen#0") || !isC {
+			// the count as decoded, or the length of the witness stack that was just stored for the input
+			if !(an.HasAll(sa, "call:lib/btc.VLen#0") || an.HasAll(sa, "len", "field:lib/btc.Tx.SegWit")) || !isC {
 				okSrc = false
 				continue
 			}
